@@ -28,7 +28,21 @@ func cmdSelftest(args []string) int {
 // selfDeterminism executes the same run indices of each property in many separate processes at
 // several GOMAXPROCS values and compares the per-run digests (verdicts, interleaving hashes,
 // simulated time, yields, probes) byte for byte.
-func selfDeterminism(ids []string) int {
+func selfDeterminism(args []string) int {
+	nproc := 8
+	if v := flagVal(args, "--procs", ""); v != "" {
+		fmt.Sscan(v, &nproc)
+	}
+	var ids []string
+	for i := 0; i < len(args); i++ {
+		if args[i] == "--procs" {
+			i++
+			continue
+		}
+		if !strings.HasPrefix(args[i], "--") {
+			ids = append(ids, args[i])
+		}
+	}
 	if len(ids) == 0 {
 		for id := range props {
 			ids = append(ids, id)
@@ -54,15 +68,22 @@ func selfDeterminism(ids []string) int {
 		if p.QuickRuns < n {
 			n = p.QuickRuns
 		}
-		cpus := []int{1, 4, 16, 2, 1, 16, 4, 8}
+		base := []int{1, 4, 16, 2, 1, 16, 4, 8}
+		cpus := make([]int, nproc)
+		for k := range cpus {
+			cpus[k] = base[k%len(base)]
+		}
 		type res struct {
 			cpu  int
 			text string
 		}
 		results := make([]res, len(cpus))
 		done := make(chan int)
+		slots := make(chan struct{}, 8) // at most 8 worker processes at a time
 		for k, c := range cpus {
 			go func(k, c int) {
+				slots <- struct{}{}
+				defer func() { <-slots }()
 				out := filepath.Join(b.scratch, fmt.Sprintf("det-%s-%d.txt", id, k))
 				j := &job{Property: id, Engine: p.Engine, Tier: "quick", Seed: seed, From: 0, To: n, ViolDir: b.scratch, NoShrink: true, TraceOut: out, Known: loadKnown(), Group: p.Group}
 				r := runWorker(b, j, 200000+k*1000+len(id), c, 20*time.Minute)
